@@ -207,11 +207,28 @@ def add_header_to_file(
         out.write("\n")
         result = 1
     else:
-        with open(path, "w", encoding="utf-8", newline=line_ending) as fp:
-            fp.write(bom + output)
-        # TODO: This may need to be rephrased more elegantly.
-        out.write(_("Successfully changed header of {path}").format(path=path))
-        out.write("\n")
+        try:
+            # Opening the file for writing truncates it. Make sure beforehand
+            # that everything can be written: a command-line argument that
+            # was not valid UTF-8 cannot.
+            (bom + output).encode("utf-8")
+        except UnicodeEncodeError:
+            out.write(
+                _(
+                    "Error: The header of '{path}' cannot be encoded as UTF-8;"
+                    " did not write new header"
+                ).format(path=path)
+            )
+            out.write("\n")
+            result = 1
+        else:
+            with open(path, "w", encoding="utf-8", newline=line_ending) as fp:
+                fp.write(bom + output)
+            # TODO: This may need to be rephrased more elegantly.
+            out.write(
+                _("Successfully changed header of {path}").format(path=path)
+            )
+            out.write("\n")
 
     if result and created_dot_license:
         # Do not leave behind the empty .license file of a failed annotation.
